@@ -11,7 +11,12 @@ Binding: TLC evaluates the specification's Construct / Validate / FromProto / pa
 operators into per-configuration outcome tables (once per switch setting); the Go engine runs
 the REAL CreatePropellerUnits (seeded libp2p ed25519 keys), ConstructMessageFromUnits for every
 subset and every single-field corruption in every subset, Byzantine length prefixes, the real
-UnitValidator / Scheduler / UnitFromProto / merkle proofs, and compares outcome classes
+UnitValidator / Scheduler / UnitFromProto / merkle proofs, and compares outcome classes; the validator is
+also driven as a STATE MACHINE: sequences of genuine and junk units (every junk kind aimed at every index,
+before and after the genuine unit, and "poison-all") on ONE real validator instance, with hand-built units
+whose Merkle leaves use the encoding that validator verifies (so H17 does not mask it); a rejected unit must
+leave no trace, a genuine unit is accepted iff its index was not accepted before, and the accepted shards
+must still reach the build threshold and rebuild the message
 (msg bit-for-bit | err | panic | other).  Equal to the repaired table: fine.  Equal to the as-is
 table only: a divergence keyed by the modelled defect.  Anything else: a divergence keyed by the case.
 """
@@ -47,6 +52,11 @@ def run(ctx):
                       label="the code as it is (Fix* = FALSE)")
     if m["ok"]:
         raise vlib.Broken("the as-is model satisfies every property although defects are modelled: switches are dead")
+    if thorough:
+        mm = ctx.tlc_check("consensus", "MCPropeller.tla", "Propeller_mutant.cfg", timeout=900, expect_violation=True,
+                           label="design mutant: validator records the shard index before checking the unit")
+        if mm["ok"]:
+            raise vlib.Broken("vacuity: the session properties hold for a validator that records rejected units")
 
     return replay_tables(ctx, binary, thorough)
 
@@ -63,9 +73,12 @@ def replay_tables(ctx, binary, thorough):
                          timeout=3000)
     ctx.absorb(res, "propeller", "TestPropellerReplay")
     st = res.get("stats", {})
-    for need in ("cases:honest", "cases:corrupt", "cases:byz", "cases:validate", "cases:proto", "cases:create", "cases:sched"):
+    for need in ("cases:honest", "cases:corrupt", "cases:byz", "cases:validate", "cases:proto", "cases:create", "cases:sched", "cases:session"):
         if not st.get(need):
             raise vlib.Broken("vacuity: the replay ran no %s" % need)
+    if st.get("session_setup_impossible"):
+        raise vlib.Broken("the validator accepts hand-built genuine units in neither leaf encoding: the stateful "
+                          "validator sequences could not be driven (%d plans)" % st["session_setup_impossible"])
     ctx.coverage["configurations"] = ["(%d,%d)" % (t["d"], t["p"]) for t in fix]
     ctx.coverage["cases_replayed"] = res.get("steps", 0)
     ctx.assumptions += [
